@@ -284,6 +284,26 @@ def check_history(shape_idx, paths, times, cells, acc, queries):
                       f'query {q} at t={t}: {p} = {have[p]!r}, emitted '
                       f'{want[p]!r}')
                     return
+    # the queried PATH timeseries: every variable at or below a queried
+    # path has its column(s), nothing else
+    for q in queries:
+        qpaths = [tuple(x) for x in q]
+        under = [lp for lp in paths if any(
+            lp[:len(qp)] == qp for qp in qpaths)]
+        try:
+            flatq = em.get_path_timeseries(qpaths)
+        except Exception as e:  # noqa
+            V('C18.query', f'path-timeseries-raises-{type(e).__name__}',
+              f'get_path_timeseries({qpaths}): {e!r}')
+            return
+        cols = {k: v for k, v in flatq.items() if k != 'time'}
+        if flatq.get('time') != list(times) and under:
+            V('C18.query', 'path-timeseries-time-vector',
+              f'get_path_timeseries({qpaths}): time {flatq.get("time")}')
+            return
+        if not check_columns(cols, under, rows, times, V,
+                             f'get_path_timeseries({qpaths})'):
+            return
     # queries must not have modified the stored history
     raw2 = em.get_data_deserialized()
     for t, row in zip(times, rows):
@@ -558,3 +578,6 @@ RULE += (
 
 RULE += (
     ' Alias family: rows of plain JSON values whose list / dictionary values are the same objects at every emit and are changed in place in between - every timepoint keeps what it was emitted with (raw data, queries, path timeseries). Empty-branch family: a {} entry before / between / after the variables of its store (also one level deeper) does not misfile the other columns.')
+
+RULE += (
+    ' Every query set is also put to get_path_timeseries(query): the columns are exactly those of the variables at or below the queried paths (quantity columns keyed by unit string).')
